@@ -119,13 +119,31 @@ struct min_result_t
     bool          threw{false};
 };
 
-min_result_t minimize(const solver_t& solver, int kind, tensor_size_t dims, uint64_t fseed, const vector_t& x0)
+min_result_t minimize(const solver_t& solver, int kind, tensor_size_t dims, uint64_t fseed, const vector_t& x0, const string_t& lib = string_t())
 {
     min_result_t     r;
-    const yfunction_t function(kind, dims, fseed);
+    const yfunction_t yfunction(kind, dims, fseed);
     try
     {
-        const auto state = solver.minimize(function, x0, make_null_logger());
+        // "each with its own function object": either the harness' yielding function or this thread's own instance of one of the
+        // library's benchmark functions (several threads inside the SAME function type at once: seeded change C18-maxquad-static-scratch)
+        rfunction_t libfunction;
+        vector_t    libx0;
+        if (!lib.empty())
+        {
+            libfunction = function_t::all().get(lib)->make(dims, 8);
+            if (libfunction)
+            {
+                libx0 = vector_t(libfunction->size());
+                vf::rng_t xr(fseed);
+                for (tensor_size_t i = 0; i < libx0.size(); ++i)
+                {
+                    libx0(i) = xr.real(-1.0, 1.0);
+                }
+            }
+        }
+        const function_t& function = libfunction ? *libfunction : static_cast<const function_t&>(yfunction);
+        const auto state = solver.minimize(function, libfunction ? libx0 : x0, make_null_logger());
         r.x      = state.x();
         r.gx     = state.gx();
         r.fx     = state.fx();
@@ -180,9 +198,25 @@ void scenario_solver(ctx_t& c)
         tensor_size_t dims;
         uint64_t      fseed;
         vector_t      x0;
+        string_t      lib; // non-empty: the thread's own instance of this library benchmark function
     };
     std::vector<job_t> jobs;
-    for (int64_t t = 0; t < nthreads; ++t)
+    const auto         lib_ids  = function_t::all().ids();
+    const bool         use_lib  = !lib_ids.empty() && r.coin(0.5);
+    // with library functions every thread minimises a SEQUENCE of functions, the same types in the same order on all threads
+    // (so that several threads are inside one function type's code at once, for several types per run)
+    const auto         rounds   = use_lib ? r.range(2, 5) : int64_t{1};
+    strings_t          lib_round;
+    for (int64_t k = 0; k < rounds && use_lib; ++k)
+    {
+        lib_round.push_back(r.pick(lib_ids));
+    }
+    const auto         lib_main = use_lib ? lib_round[0] : string_t();
+    if (use_lib)
+    {
+        c.probe("shared_solver_library_functions");
+    }
+    for (int64_t t = 0; t < nthreads * rounds; ++t)
     {
         job_t j;
         j.kind  = static_cast<int>(r.range(0, 2));
@@ -193,9 +227,13 @@ void scenario_solver(ctx_t& c)
         {
             j.x0(i) = r.real(-2.0, 2.0);
         }
+        if (use_lib)
+        {
+            j.lib = r.coin(0.8) ? lib_round[static_cast<size_t>(t % rounds)] : r.pick(lib_ids);
+        }
         jobs.push_back(j);
     }
-    c.sample = "shared solver " + id + " lsearch0=" + solver->lsearch0().type_id() + " lsearchk=" + solver->lsearchk().type_id() +
+    c.sample = "shared solver " + id + (use_lib ? " library function " + lib_main : string_t()) + " lsearch0=" + solver->lsearch0().type_id() + " lsearchk=" + solver->lsearchk().type_id() +
                " threads=" + std::to_string(nthreads);
 
     // alone: before or after the concurrent calls ("the same call executed alone" - a first serial call must not be needed
@@ -206,7 +244,7 @@ void scenario_solver(ctx_t& c)
     {
         for (const auto& j : jobs)
         {
-            solo.push_back(minimize(*solver, j.kind, j.dims, j.fseed, j.x0));
+            solo.push_back(minimize(*solver, j.kind, j.dims, j.fseed, j.x0, j.lib));
         }
     };
     if (solo_first)
@@ -217,9 +255,16 @@ void scenario_solver(ctx_t& c)
     {
         std::vector<std::thread> threads;
         const solver_t&          shared = *solver;
-        for (size_t t = 0; t < jobs.size(); ++t)
+        for (size_t t = 0; t < static_cast<size_t>(nthreads); ++t)
         {
-            threads.emplace_back([&, t] { conc[t] = minimize(shared, jobs[t].kind, jobs[t].dims, jobs[t].fseed, jobs[t].x0); });
+            threads.emplace_back(
+                [&, t]
+                {
+                    for (size_t k = t * static_cast<size_t>(rounds); k < (t + 1) * static_cast<size_t>(rounds); ++k)
+                    {
+                        conc[k] = minimize(shared, jobs[k].kind, jobs[k].dims, jobs[k].fseed, jobs[k].x0, jobs[k].lib);
+                    }
+                });
         }
         for (auto& t : threads)
         {
